@@ -1015,11 +1015,29 @@ func (e *Exec) arith(st *State, op token.Token, l, r Term, t types.Type, rt type
 				}
 			}
 		}
+		// a & (1 << k): the single bit, or 0
+		if isSingleBitTerm(r) {
+			v := e.bindLocal("bitv", r)
+			return Ite(Eq(v, IntLit(0)), IntLit(0), Ite(Eq(Mod(Div(l, v), IntLit(2)), IntLit(1)), v, IntLit(0)))
+		}
+		if isSingleBitTerm(l) {
+			v := e.bindLocal("bitv", l)
+			return Ite(Eq(v, IntLit(0)), IntLit(0), Ite(Eq(Mod(Div(r, v), IntLit(2)), IntLit(1)), v, IntLit(0)))
+		}
 		e.needBitAxioms()
 		return mk(SInt, "uf_and", l, r)
 	case token.OR:
 		if v, ok := e.disjointOr(l, r); ok {
 			return v
+		}
+		// a | (1 << k): sets one bit
+		if isSingleBitTerm(r) {
+			v := e.bindLocal("bitv", r)
+			return Ite(Or(Eq(v, IntLit(0)), Eq(Mod(Div(l, v), IntLit(2)), IntLit(1))), l, Add(l, v))
+		}
+		if isSingleBitTerm(l) {
+			v := e.bindLocal("bitv", l)
+			return Ite(Or(Eq(v, IntLit(0)), Eq(Mod(Div(r, v), IntLit(2)), IntLit(1))), r, Add(r, v))
 		}
 		e.needBitAxioms()
 		return mk(SInt, "uf_or", l, r)
@@ -1040,6 +1058,35 @@ func (e *Exec) arith(st *State, op token.Token, l, r Term, t types.Type, rt type
 }
 
 func isNonNeg(v Term, e *Exec, t types.Type) bool { return true }
+
+// isSingleBitTerm: the term is syntactically 2^k (a literal power of two, pow2i(e), 1*pow2i(e)) possibly reduced modulo
+// a literal power of two (then its value is 2^k or 0). Used for the exact treatment of x | (1<<k) and x & (1<<k) on
+// non-negative mathematical integers.
+func isSingleBitTerm(t Term) bool {
+	if t.Sort != SInt {
+		return false
+	}
+	if v, ok := litVal(t); ok {
+		return v > 0 && v&(v-1) == 0
+	}
+	s := t.S
+	if strings.HasPrefix(s, "(mod ") {
+		parts := splitTop(s[1 : len(s)-1])
+		if len(parts) == 3 {
+			if m, ok := litVal(Term{parts[2], SInt}); ok && m > 0 && m&(m-1) == 0 {
+				return isSingleBitTerm(Term{parts[1], SInt})
+			}
+		}
+		return false
+	}
+	if strings.HasPrefix(s, "(pow2i ") {
+		return true
+	}
+	if strings.HasPrefix(s, "(* 1 (pow2i ") {
+		return true
+	}
+	return false
+}
 
 // unsignedWidth: bit width of a sized unsigned integer type (0 otherwise).
 func unsignedWidth(t types.Type) uint {
